@@ -46,6 +46,7 @@ the capacity is the attribute compared with ``len(queue)``.
 from __future__ import annotations
 
 import ast
+import copy
 from typing import Dict, List, Optional, Set, Tuple
 
 from .. import flow
@@ -96,12 +97,341 @@ def feasible(cfg, atom):
     return ok
 
 
+# ---------------------------------------------------------------------------
+# normalised view of a method: same-class helpers inlined, constructor-only attributes read through once-bound locals
+# ---------------------------------------------------------------------------
+
+INLINE_DEPTH = 3
+
+
+def _body_wo_doc(node) -> List[ast.stmt]:
+    body = list(node.body)
+    if body and isinstance(body[0], ast.Expr) and isinstance(body[0].value, ast.Constant) and isinstance(body[0].value.value, str):
+        body = body[1:]
+    return body
+
+
+def _stored_names(node) -> Set[str]:
+    out = set()
+    for x in walk_self(node):
+        if isinstance(x, ast.Name) and isinstance(x.ctx, (ast.Store, ast.Del)):
+            out.add(x.id)
+        elif isinstance(x, ast.ExceptHandler) and x.name:
+            out.add(x.name)
+    return out
+
+
+class _Rename(ast.NodeTransformer):
+    def __init__(self, mapping):
+        self.mapping = mapping
+
+    def visit_Name(self, n):
+        if n.id in self.mapping:
+            return ast.copy_location(ast.Name(id=self.mapping[n.id], ctx=n.ctx), n)
+        return n
+
+    def visit_ExceptHandler(self, n):
+        self.generic_visit(n)
+        if n.name in self.mapping:
+            n.name = self.mapping[n.name]
+        return n
+
+
+class ClassView:
+    """Reads a method of one class the way the interpreter executes it, for the rules that judge a protocol spread over
+    statements of ONE function (check / register / mutate / notify / suspend):
+
+    * a call ``self.helper(args)`` that stands alone as a statement (or ``x = self.helper(args)``, or the awaited forms for a
+      coroutine helper) of a plain method of the same class whose only ``return`` is its last statement is replaced by the
+      helper's body, its parameters bound to the arguments and its locals renamed apart (a call is not a suspension point; the
+      helper's own awaits are kept) - bounded depth, no recursion;
+    * a local bound exactly once to ``self.<attr>[.<name>...]`` where ``<attr>`` is assigned in ``__init__`` and nowhere else
+      in the project is replaced by that expression where it is read (the object cannot change, so the snapshot cannot be
+      stale; in-place mutation goes through the same object).
+
+    A method that needs neither is returned as it is (same Func, same AST).  A helper that cannot be inlined is left as a call;
+    `opaque_calls` lists those so that a rule can refuse (unknown idiom) instead of judging code it did not read."""
+
+    def __init__(self, p, cls):
+        self.p = p
+        self.cls = cls
+        self._views: Dict[str, Func] = {}
+        self._absorbed: Dict[str, bool] = {}
+        self.opaque: Dict[str, List[Tuple[ast.Call, Func, str]]] = {}
+        init = cls.methods.get('__init__')
+        ctor = {a for a, _v, _n in _stores(init)} if init is not None else set()
+        if ctor:
+            # writers: `self.<attr>` in another method of this class / a related class; `<anything else>.<attr>` anywhere (the
+            # receiver is not known); setattr/delattr.  `self.<attr>` in a method of an unrelated class is another object.
+            for g in p.all_functions():
+                if init is not None and g is init:
+                    continue
+                own = g
+                while own is not None and own.cls is None:
+                    own = own.parent
+                ocls = own.cls if own is not None else None
+                related = ocls is not None and (ocls is cls or p.is_subclass(ocls.qual, cls.qual) is not False
+                                                or p.is_subclass(cls.qual, ocls.qual) is not False)
+                for x in walk_self(g.node):
+                    if isinstance(x, ast.Attribute) and isinstance(x.ctx, (ast.Store, ast.Del)) and x.attr in ctor:
+                        if related or not (isinstance(x.value, ast.Name) and x.value.id == 'self'):
+                            ctor.discard(x.attr)
+                    elif isinstance(x, ast.Call) and isinstance(x.func, ast.Name) and x.func.id in ('setattr', 'delattr') and len(x.args) >= 2:
+                        k = x.args[1]
+                        if isinstance(k, ast.Constant):
+                            ctor.discard(k.value)
+                        elif related:
+                            ctor.clear()
+        self.ctor_only: Set[str] = ctor
+
+    # -- inlining
+    def _helper(self, call) -> Optional[Func]:
+        f = call.func
+        if isinstance(f, ast.Attribute) and isinstance(f.value, ast.Name) and f.value.id == 'self':
+            m = self.p.lookup_method(self.cls.qual, f.attr)
+            if isinstance(m, Func) and not m.is_property() and func_cls_is(m, self.cls, self.p):
+                return m
+        return None
+
+    def _why_not(self, m: Func, call: ast.Call, awaited: bool) -> Optional[str]:
+        if m.decorators:
+            return 'it is decorated'
+        if m.is_async != awaited:
+            return 'a coroutine method is not awaited on the spot' if m.is_async else 'a plain method is awaited'
+        a = m.node.args
+        if a.vararg or a.kwarg or a.posonlyargs or a.kwonlyargs:
+            return 'its signature has */** / keyword-only parameters'
+        if any(isinstance(x, ast.Starred) for x in call.args) or any(k.arg is None for k in call.keywords):
+            return 'it is called with */**'
+        for x in walk_self(m.node):
+            if isinstance(x, (ast.Yield, ast.YieldFrom, ast.Global, ast.Nonlocal, ast.FunctionDef, ast.AsyncFunctionDef, ast.ClassDef)) and x is not m.node:
+                return 'it contains %s' % type(x).__name__
+        body = self._norm_body(m)
+        for st in body:
+            for x in walk_self(st):
+                if isinstance(x, ast.Return) and x is not body[-1]:
+                    return 'it returns from inside a compound statement or with a value before its last statement'
+        return None
+
+    def _norm_body(self, m: Func) -> List[ast.stmt]:
+        """the helper's statements (a fresh copy) with leading guards ``if c: return`` (no value, no else) turned into
+        ``if not c: <rest>`` - the same paths, and the only ``return`` left, if any, is the last statement"""
+        def fold(stmts: List[ast.stmt]) -> List[ast.stmt]:
+            for i, st in enumerate(stmts):
+                if isinstance(st, ast.If) and not st.orelse and len(st.body) == 1 and isinstance(st.body[0], ast.Return) and st.body[0].value is None:
+                    rest = fold(stmts[i + 1:])
+                    if rest and isinstance(rest[-1], ast.Return):
+                        return stmts        # the remainder hands back a value: not a pure guard
+                    if not rest:
+                        return stmts[:i] + [ast.copy_location(ast.Expr(value=st.test), st)]
+                    neg = ast.copy_location(ast.UnaryOp(op=ast.Not(), operand=st.test), st.test)
+                    return stmts[:i] + [ast.copy_location(ast.If(test=neg, body=rest, orelse=[]), st)]
+            if stmts and isinstance(stmts[-1], ast.Return) and stmts[-1].value is None:
+                return stmts[:-1]
+            return stmts
+        return fold([copy.deepcopy(b) for b in _body_wo_doc(m.node)])
+
+    def _bind(self, m: Func, call: ast.Call, ren) -> Optional[List[ast.stmt]]:
+        params = [x.arg for x in m.node.args.args]
+        if not params or params[0] != 'self':
+            return None
+        params = params[1:]
+        defaults = m.node.args.defaults
+        dflt = dict(zip(params[len(params) - len(defaults):], defaults)) if defaults else {}
+        given: Dict[str, ast.AST] = {}
+        if len(call.args) > len(params):
+            return None
+        for prm, a in zip(params, call.args):
+            given[prm] = a
+        for kw in call.keywords:
+            if kw.arg not in params or kw.arg in given:
+                return None
+            given[kw.arg] = kw.value
+        out = []
+        for prm in params:
+            v = given.get(prm, dflt.get(prm))
+            if v is None:
+                return None
+            out.append(ast.copy_location(ast.Assign(targets=[ast.copy_location(ast.Name(id=ren[prm], ctx=ast.Store()), call)],
+                                                    value=copy.deepcopy(v), lineno=call.lineno), call))
+        return out
+
+    def _inline_block(self, owner: Func, stmts: List[ast.stmt], depth: int, stack: Tuple[str, ...], counter: List[int], notes) -> Tuple[List[ast.stmt], bool]:
+        out: List[ast.stmt] = []
+        changed = False
+        for s in stmts:
+            for fld in ('body', 'orelse', 'finalbody'):
+                blk = getattr(s, fld, None)
+                if isinstance(blk, list) and blk and isinstance(blk[0], ast.stmt) and not isinstance(s, (ast.FunctionDef, ast.AsyncFunctionDef, ast.ClassDef)):
+                    nb, ch = self._inline_block(owner, blk, depth, stack, counter, notes)
+                    if ch:
+                        setattr(s, fld, nb)
+                        changed = True
+            for h in getattr(s, 'handlers', []) or []:
+                nb, ch = self._inline_block(owner, h.body, depth, stack, counter, notes)
+                if ch:
+                    h.body = nb
+                    changed = True
+            for cs in getattr(s, 'cases', []) or []:
+                nb, ch = self._inline_block(owner, cs.body, depth, stack, counter, notes)
+                if ch:
+                    cs.body = nb
+                    changed = True
+            target = None
+            val = None
+            if isinstance(s, ast.Expr):
+                val = s.value
+            elif isinstance(s, ast.Assign) and len(s.targets) == 1:
+                val, target = s.value, s
+            elif isinstance(s, ast.AnnAssign) and s.value is not None:
+                val, target = s.value, s
+            elif isinstance(s, ast.Return) and s.value is not None:
+                val, target = s.value, s
+            awaited = isinstance(val, ast.Await)
+            call = val.value if awaited else val
+            m = self._helper(call) if isinstance(call, ast.Call) else None
+            if m is None:
+                out.append(s)
+                continue
+            why = self._why_not(m, call, awaited)
+            if why is None and (depth >= INLINE_DEPTH or m.qual in stack):
+                why = 'the chain of helpers is deeper than %d or recursive' % INLINE_DEPTH
+            ren = None
+            binds = None
+            if why is None:
+                counter[0] += 1
+                names = (set(x.arg for x in m.node.args.args) | _stored_names(m.node)) - {'self'}
+                ren = {nm: '%s__%s%d' % (nm, m.name.strip('_'), counter[0]) for nm in names}
+                binds = self._bind(m, call, ren)
+                if binds is None:
+                    why = 'its arguments cannot be matched with its parameters'
+            if why is not None:
+                notes.append((call, m, why))
+                out.append(s)
+                continue
+            body = [_Rename(ren).visit(b) for b in self._norm_body(m)]
+            ret = None
+            if body and isinstance(body[-1], ast.Return):
+                ret = body.pop().value
+            body, _ch = self._inline_block(owner, body, depth + 1, stack + (m.qual,), counter, notes)
+            res = ret if ret is not None else ast.copy_location(ast.Constant(value=None), call)
+            if target is None:
+                tail = [ast.copy_location(ast.Expr(value=res), s)] if ret is not None else []
+            else:
+                tail_stmt = copy.copy(target)
+                tail_stmt.value = res
+                tail = [tail_stmt]
+            out.extend(binds + body + tail)
+            changed = True
+        return out, changed
+
+    # -- constructor-only attributes read through a once-bound local
+    def _ctor_chain(self, e) -> bool:
+        n = 0
+        while isinstance(e, ast.Attribute) and isinstance(e.ctx, ast.Load) and n < 3:
+            if isinstance(e.value, ast.Name) and e.value.id == 'self':
+                return e.attr in self.ctor_only
+            e = e.value
+            n += 1
+        return False
+
+    def _once_bound(self, node, params) -> Dict[str, ast.AST]:
+        cnt: Dict[str, int] = {}
+        val: Dict[str, ast.AST] = {}
+        for x in walk_self(node):
+            if isinstance(x, ast.Name) and isinstance(x.ctx, (ast.Store, ast.Del)):
+                cnt[x.id] = cnt.get(x.id, 0) + 1
+            elif isinstance(x, ast.ExceptHandler) and x.name:
+                cnt[x.name] = cnt.get(x.name, 0) + 2
+            if isinstance(x, ast.Assign) and len(x.targets) == 1 and isinstance(x.targets[0], ast.Name):
+                val[x.targets[0].id] = x.value
+            elif isinstance(x, ast.AnnAssign) and isinstance(x.target, ast.Name) and x.value is not None:
+                val[x.target.id] = x.value
+        return {k: v for k, v in val.items() if cnt.get(k) == 1 and k not in params and self._ctor_chain(v)}
+
+    def absorbed(self, h: Func) -> bool:
+        """`h` is a private helper that exists only inside the views of its callers: every mention of its name in the project is
+        a call ``self.<name>(...)`` in statement position in a method of the class, and each of them can be inlined.  Such a method
+        is not an entry point of its own; judging it alone would judge half a protocol."""
+        if h.qual in self._absorbed:
+            return self._absorbed[h.qual]
+        ok = h.name.startswith('_') and not h.name.startswith('__') and self.p.lookup_method(self.cls.qual, h.name) is h
+        n_ok = 0
+        if ok:
+            sites = set()
+            for m in self.cls.methods.values():
+                if m is h:
+                    if any(isinstance(x, ast.Attribute) and x.attr == h.name for x in ast.walk(m.node)):
+                        ok = False
+                    continue
+                for st in walk_self(m.node):
+                    val = st.value if isinstance(st, (ast.Expr, ast.Assign, ast.AnnAssign, ast.Return)) else None
+                    awaited = isinstance(val, ast.Await)
+                    call = val.value if awaited else val
+                    if isinstance(call, ast.Call) and self._helper(call) is h and self._why_not(h, call, awaited) is None \
+                            and not (isinstance(st, ast.Assign) and len(st.targets) != 1):
+                        sites.add(id(call.func))
+            n_ok = len(sites)
+            if ok:
+                for mod in self.p.modules.values():
+                    for x in ast.walk(mod.tree):
+                        if isinstance(x, ast.Attribute) and x.attr == h.name and id(x) not in sites:
+                            ok = False
+                        elif isinstance(x, ast.Constant) and x.value == h.name:
+                            ok = False      # getattr(obj, '<name>') and the like
+        self._absorbed[h.qual] = bool(ok and n_ok)
+        return self._absorbed[h.qual]
+
+    def view(self, f: Func) -> Func:
+        if f.qual in self._views:
+            return self._views[f.qual]
+        notes: List[Tuple[ast.Call, Func, str]] = []
+        needs = any(isinstance(c, ast.Call) and self._helper(c) is not None for c in walk_self(f.node)) \
+            or bool(self._once_bound(f.node, set(f.params())))
+        g = f
+        if needs:
+            node = copy.deepcopy(f.node)
+            body, ch1 = self._inline_block(f, node.body, 0, (f.qual,), [0], notes)
+            node.body = body
+            al = self._once_bound(node, set(f.params()))
+            if al:
+                class Sub(ast.NodeTransformer):
+                    def visit_Name(self, n):
+                        if isinstance(n.ctx, ast.Load) and n.id in al:
+                            return ast.copy_location(copy.deepcopy(al[n.id]), n)
+                        return n
+                node = Sub().visit(node)
+            if ch1 or al:
+                ast.fix_missing_locations(node)
+                g = Func(node, f.qual, f.module, f.cls, f.parent)
+                g.nested = f.nested
+                g.origin = f
+        # calls of same-class methods the view still contains (not inlined, or used inside an expression)
+        left = []
+        for c in walk_self(g.node):
+            if isinstance(c, ast.Call):
+                m = self._helper(c)
+                if m is not None:
+                    why = next((w for (c0, m0, w) in notes if m0 is m), 'the call is part of a larger expression')
+                    left.append((c, m, why))
+        self.opaque[f.qual] = left
+        self._views[f.qual] = g
+        return g
+
+
+def func_cls_is(m: Func, cls, p) -> bool:
+    return m.cls is not None and (m.cls is cls or p.is_subclass(cls.qual, m.cls.qual) is True)
+
+
 class BRModel:
     def __init__(self, p):
         self.p = p
         self.cls = p.cls(BUFRX)
         self.init = p.func(BUFRX + '.__init__')
-        self.methods = [f for _n, f in sorted(self.cls.methods.items())]
+        self.views = ClassView(p, self.cls)
+        self.methods = [f if f is self.init else self.views.view(f) for _n, f in sorted(self.cls.methods.items())
+                        if f is self.init or not self.views.absorbed(f)]
+        self._by_qual = {f.qual: f for f in self.methods}
         self.queue = None
         for attr, val, _n in _stores(self.init):
             if isinstance(val, ast.Call) and p.resolve_expr(self.init.module, val.func, self.init) == 'collections.deque':
@@ -141,8 +471,8 @@ class BRModel:
         self.consumers = sorted({f.qual for f, m, _c in self.q_ops if m in ('pop', 'popleft')})
         if len(self.producers) != 1 or len(self.consumers) != 1:
             raise UnknownIdiom('%s: expected one producer and one consumer of the queue, found %s / %s' % (BUFRX, self.producers, self.consumers))
-        self.producer = p.func(self.producers[0])
-        self.consumer = p.func(self.consumers[0])
+        self.producer = self._by_qual[self.producers[0]]
+        self.consumer = self._by_qual[self.consumers[0]]
         # waiters: attributes that receive a create_future() result
         self.waiters: Dict[str, Set[str]] = {}
         for f in self.methods:
@@ -209,6 +539,16 @@ class BRModel:
                     self.raw_recv = attr
         if self.raw_recv is None:
             raise AnchorError('%s: the pump does not call a constructor-supplied receive callable' % self.producer.qual)
+        self.refuse_opaque(self.producer)
+        self.refuse_opaque(self.consumer)
+
+    def refuse_opaque(self, f: Func):
+        """A same-class helper the view could not inline that takes part in the hand-off (touches the queue, a waiter slot, the
+        flag or the task, or suspends) was not read: the protocol rules must not judge its caller without it."""
+        roles = {self.queue, self.pop_waiter, self.put_waiter, self.task, FLAG} - {None}
+        for (c, m, why) in self.views.opaque.get(f.qual, []):
+            if m.is_async or any(isinstance(x, ast.Attribute) and x.attr in roles for x in ast.walk(m.node)):
+                raise UnknownIdiom('%s: %s takes part in the queue hand-off but cannot be read in place (%s)' % (f.qual, short(c), why))
 
     def _classify_bound(self, b) -> Optional[str]:
         """None: the container is unbounded; 'cap': its maxlen is the configured capacity (or None for some
@@ -774,7 +1114,7 @@ def r4_lifecycle(run):
         for c in n.calls():
             if isinstance(c.func, ast.Attribute) and isinstance(c.func.value, ast.Attribute) and _self_attr(c.func.value, ws.buf_attr):
                 m = p.lookup_method(BUFRX, c.func.attr)
-                if isinstance(m, Func) and m is not br.starter and _touches_task(br, m):
+                if isinstance(m, Func) and m.qual != br.starter.qual and _touches_task(br, m):
                     stop_nodes.append(n.id)
                     if m not in stops:
                         stops.append(m)
@@ -871,7 +1211,7 @@ def r4_lifecycle(run):
         if n.kind == 'stmt' and isinstance(n.ast, ast.Assign) and any(_self_attr(t, ws.raw_recv) for t in n.ast.targets):
             v = n.ast.value
             n_assign += 1
-            if isinstance(v, ast.Attribute) and _self_attr(v.value, ws.buf_attr) and p.lookup_method(BUFRX, v.attr) is br.consumer:
+            if isinstance(v, ast.Attribute) and _self_attr(v.value, ws.buf_attr) and getattr(p.lookup_method(BUFRX, v.attr), 'qual', None) == br.consumer.qual:
                 run.check(any(flow.dominated_by_edge(cfg, n.id, e) for e in pos), 'WebSocket: the buffered receive is used only when the capacity is positive', init, n.ast,
                           runtime_witness='max_receive_queue=0: receive_*() trips the assertion that a pump task exists')
             elif isinstance(v, ast.Name) and v.id == 'receive':
@@ -1134,7 +1474,7 @@ def r7_receive_ignores_flag(run):
     # it has just pulled is the websocket.disconnect (reachable from the pull, before the next pull, under "type == disconnect"
     # and not under another event type)
     ctx = _pump_ctx(run)
-    if recv.methods.get(ctx.f.name) is not ctx.f:
+    if getattr(recv.methods.get(ctx.f.name), 'qual', None) != ctx.f.qual:
         raise AnchorError('the pump %s is not a method of _BufferedReceiver' % ctx.f.qual)
 
     def after_pull(evtype):
